@@ -258,6 +258,7 @@ func (s *Subscription) OnReady(cb func()) {
 // has been loaded from the rescache. If the resource is already loaded,
 // the callback will directly be queued onto the connections worker goroutine.
 func (s *Subscription) onLoaded(rcb *readyCallback) {
+	verifSub("onLoaded", s)
 	// Add itself to refMap
 	rcb.refMap[s.rid] = true
 	rcb.loading++
